@@ -151,6 +151,16 @@ func (this *Hnsw) Load(r io.Reader, header bool) error {
 
 	uuidBuf := make([]byte, uuid.Size)
 	if _, err := io.ReadFull(r, uuidBuf); err != nil {
+		if err == io.EOF {
+			// Save writes nothing for an empty index
+			for i := range this.vertices {
+				this.vertices[i] = make(map[uuid.UUID]*hnswVertex)
+			}
+			atomic.StorePointer(&this.entrypoint, nil)
+			this.len = 0
+			this.bytesSize = 0
+			return nil
+		}
 		return err
 	}
 	entrypointId, err := uuid.FromBytes(uuidBuf)
